@@ -51,11 +51,12 @@ def run(tier):
         seeds = rnd.sample(seeds, 10) + corpus.special_files(rnd)[:2]
     cases = []
     for (sname, buf, chunks) in seeds:
-        for (mname, mb) in mutants_of(rnd, sname, buf, 150 if tier == "quick" else 800):
+        # (memory: the mutants and their reference decodings are held until the trace is built; large files get fewer)
+        for (mname, mb) in mutants_of(rnd, sname, buf, 150 if (tier == "quick" or len(buf) > 20000) else 800):
             cases.append((mname, mb))
     if tier == "thorough":
-        # every single-bit flip of every body byte of two small files, every truncation length
-        for (sname, buf, chunks) in seeds[:2]:
+        # every single-bit flip of every body byte of the two smallest files, every truncation length
+        for (sname, buf, chunks) in sorted(seeds, key=lambda s_: len(s_[1]))[:2]:
             h = ref.parse_header(buf)
             for p in range(h.hdr_total, len(buf)):
                 for bit in range(8):
